@@ -37,6 +37,37 @@ func runFile(e *hx.Env, rep *hx.Report, path, name string) (*policy.CaseResult, 
 		return nil, nil, err
 	}
 	var expect []string
+	if strings.Contains(string(raw), "\nworld ") {
+		// a history (live manager, events judged one by one)
+		var hist []string
+		for _, l := range strings.Split(string(raw), "\n") {
+			l = strings.TrimSpace(l)
+			if strings.HasPrefix(l, "# expect=") {
+				expect = append(expect, strings.TrimPrefix(l, "# expect="))
+			}
+			if l != "" && !strings.HasPrefix(l, "#") {
+				hist = append(hist, l)
+			}
+		}
+		bt := policy.NewBatch(e, rep, prop)
+		rs, err := policy.RunC16History(e, rep, bt, name, hist)
+		bt.Flush()
+		if err != nil || len(rs) == 0 {
+			return nil, nil, fmt.Errorf("history %s: %v", path, err)
+		}
+		// fold the per-event / final results into one
+		tot := rs[len(rs)-1]
+		for _, r := range rs[:len(rs)-1] {
+			for k, v := range r.Sigs {
+				tot.Sigs[k] += v
+			}
+			tot.Accepted += r.Accepted
+			tot.Dropped += r.Dropped
+			tot.Mismatch += r.Mismatch
+			tot.Selected += r.Selected
+		}
+		return tot, expect, nil
+	}
 	var c policy.Cluster
 	var ps []policy.NetPol
 	var flows []policy.Flow
@@ -170,7 +201,15 @@ func run(e *hx.Env) *hx.Report {
 		if len(ps) == 0 {
 			continue
 		}
-		if res := policy.RunUpdateScenario(e, rep, bt, fmt.Sprintf("s%d-u%d", e.Seed, i), e.Rng, c, ps); res != nil {
+		hist := policy.GenUpdateHistory(e.Rng, c, ps)
+		if hist == nil {
+			continue
+		}
+		rs, err := policy.RunC16History(e, rep, bt, fmt.Sprintf("s%d-u%d", e.Seed, i), hist)
+		if err != nil {
+			rep.Disagree = append(rep.Disagree, hx.Disagreement{Where: "update-history", Model: err.Error()})
+		}
+		for _, res := range rs {
 			results = append(results, res)
 			kinds = append(kinds, "update")
 		}
